@@ -10,12 +10,15 @@
 (* the ledger properties (C01 C02 C03 C06 C16 C17) and emitted for replay  *)
 (* together with the model's predicted observables.                        *)
 (***************************************************************************)
-EXTENDS Impl, PropsLedger, IOUtils
+EXTENDS Impl, PropsRisk, IOUtils
 
-CONSTANTS Accts, BankNames, Amounts, Ticks, MaxDepth
+CONSTANTS Accts, BankNames, Amounts, Ticks, MaxDepth,
+          LiqTriples,   \* set of <<liquidator, liquidatee, asset bank, liab bank>>
+          Prices,       \* set of <<bank, numerator, denominator>> the admin may set as fixed price
+          BkCases       \* set of <<account, bank, signer>> for handle_bankruptcy
 
-VARIABLES st, acc, sid, depth
-vars == <<st, acc, sid, depth>>
+VARIABLES st, acc, acc7, sid, depth
+vars == <<st, acc, acc7, sid, depth>>
 
 InitState == JsonDeserialize(IOEnv.INIT_STATE)
 
@@ -44,8 +47,11 @@ Do(a, r, post, obs) ==
   /\ st' = post
   /\ depth' = depth + 1
   /\ acc' = C02AccNext(acc, st, e, post)
-  /\ C01(st, e, post, 0) /\ C02(st, e, post, acc, 0) /\ C03(st, e, post, 0)
-  /\ C06(st, e, post, 0) /\ C16(st, e, post, 0) /\ C17(st, e, post, 0)
+  /\ acc7' = C07AccNext(acc7, st, e, post)
+  /\ (C01(st, e, post, 0) /\ C02(st, e, post, acc, 0) /\ C03(st, e, post, 0)
+      /\ C06(st, e, post, 0) /\ C16(st, e, post, 0) /\ C17(st, e, post, 0)
+      /\ C04(st, e, post, 0) /\ C05(st, e, post, 0) /\ C07(st, e, post, acc7, 0) /\ C09(st, e, post, 0)
+      /\ C13(st, e, post, 0) /\ C14Bank(st, e, post, 0)) = TRUE
   /\ sid' = TLCGet(1)
   /\ TLCSet(1, TLCGet(1) + 1)
   /\ PrintT("EDGE " \o ToString(sid) \o " " \o ToString(TLCGet(1) - 1) \o " " \o
@@ -195,7 +201,112 @@ CollectFees(bn) ==
       post == [st EXCEPT !.banks[bn] = b2, !.tok = tok4]
   IN Do(a, "ok", post, Obs(post, {bn}, {}, {b.vault_liq, b.vault_ins, b.vault_fee, ata}))
 
-Init == st = InitState /\ acc = C02AccNext(C02Acc0, InitState, [ev |-> "reset"], InitState) /\ sid = 0 /\ depth = 0 /\ TLCSet(1, 1)
+\* ---- liquidation, bankruptcy, admin price (fixed-price oracles) --------------------------------
+SetPrice(bn, n, d) ==
+  LET a == [op |-> "set_fixed_price", bank |-> bn, price |-> ToString(n) \o "/" \o ToString(d)]
+      post == [st EXCEPT !.banks[bn].cfg.fixed_price = FDiv(FOfInt(n), FOfInt(d))]
+  IN Do(a, "ok", post, [banks |-> [b \in {bn} |-> [cfg |-> [fixed_price |-> post.banks[bn].cfg.fixed_price]]]])
+
+Liquidate(lor, lee, abn, lbn, q) ==
+  LET a == [op |-> "liquidate", liquidator |-> lor, liquidatee |-> lee, asset_bank |-> abn, liab_bank |-> lbn, amount |-> q]
+      ab0 == st.banks[abn] lb0 == st.banks[lbn] g == st.groups[lb0.group]
+      sa == BankStateErr(ab0, "Paused") sl == BankStateErr(lb0, "Paused")
+  IN IF q = 0 THEN Fail(a, "ZeroLiquidationAmount")
+     ELSE IF abn = lbn THEN Fail(a, "SameAssetAndLiabilityBanks")
+     ELSE IF sa # "ok" THEN Fail(a, sa)
+     ELSE IF sl # "ok" THEN Fail(a, sl)
+     ELSE LET ab1 == ImplAccrue(ab0, g, Now) lb1 == ImplAccrue(lb0, g, Now) IN
+     IF IsErr(ab1) THEN Fail(a, ab1.err) ELSE IF IsErr(lb1) THEN Fail(a, lb1.err)
+     ELSE LET leeBal == SortBal(st.accts[lee].bal)
+              banks1 == [st.banks EXCEPT ![abn] = ab1, ![lbn] = lb1]
+              i == FindSlot(leeBal, lbn)
+          IN IF i = 0 THEN Fail(a, "LendingAccountBalanceNotFound")
+             ELSE IF BLt(leeBal[i].l, IONE) THEN Fail(a, "NoLiabilitiesInLiabilityBank")
+             ELSE IF ~BLt(leeBal[i].a, IONE) THEN Fail(a, "AssetsInLiabilityBank")
+             ELSE LET h0 == HealthComponents(banks1, leeBal, "Maint") pre == BSub(h0[1], h0[2]) IN
+             IF BIsPos(pre) THEN Fail(a, "HealthyAccount")
+             ELSE LET pa == ab1.cfg.fixed_price pl == lb1.cfg.fixed_price IN
+             IF ~BIsPos(pa) THEN Fail(a, "ZeroAssetPrice")
+             ELSE IF ~BIsPos(pl) THEN Fail(a, "ZeroLiabilityPrice")
+             ELSE LET qF == FOfInt(q)
+                      dL == BSub(FOne, IC_LIQUIDATION_LIQUIDATOR_FEE)
+                      dF == BSub(FOne, BAdd(IC_LIQUIDATION_INSURANCE_FEE, IC_LIQUIDATION_LIQUIDATOR_FEE))
+                      qll == CalcAmount(CalcValue(qF, pa, ab1.dec, dL), pl, lb1.dec)
+                      qlf == CalcAmount(CalcValue(qF, pa, ab1.dec, dF), pl, lb1.dec)
+                      fee == BSub(qll, qlf)
+                      \* liquidator takes on the liability
+                      f1 == FindOrCreate(st.accts[lor].bal, lbn, lb1.key, lb1.cfg.asset_tag, Now)
+                  IN IF IsErr(f1) THEN Fail(a, f1.err)
+                     ELSE LET r1 == ImplDecrease(lb1, f1[1], f1[2], qll, "Bypass", Now) IN
+                     IF IsErr(r1) THEN Fail(a, r1.err)
+                     ELSE LET j == FindSlot(leeBal, abn) IN
+                     IF j = 0 THEN Fail(a, "BankAccountNotFound")
+                     ELSE IF BLt(AssetAmount(ab1, leeBal[j].a), qF) THEN Fail(a, "OverliquidationAttempt")
+                     ELSE LET r2 == ImplDecrease(ab1, leeBal, j, qF, "Bypass", Now) IN
+                     IF IsErr(r2) THEN Fail(a, r2.err)
+                     ELSE LET f3 == FindOrCreate(r1.bal, abn, ab1.key, ab1.cfg.asset_tag, Now) IN
+                     IF IsErr(f3) THEN Fail(a, f3.err)
+                     ELSE LET r3 == ImplIncrease(r2.b, f3[1], f3[2], qF, "Bypass", Now) IN
+                     IF IsErr(r3) THEN Fail(a, r3.err)
+                     ELSE LET k == FindSlot(r2.bal, lbn)
+                              r4 == ImplIncrease(r1.b, r2.bal, k, qlf, "RepayOnly", Now)
+                          IN IF IsErr(r4) THEN Fail(a, r4.err)
+                             ELSE LET feeT == FToInt(FFloor(fee))
+                                      vault == TokOf(st, lb1.vault_liq)
+                                  IN IF BLt(vault, feeT) THEN Fail(a, "A1")
+                                     ELSE LET lbF == ImplUpdateCache([r4.b EXCEPT !.fee_ins = BAdd(@, FFrac(fee))], Now)
+                                              abF == ImplUpdateCache(r3.b, Now)
+                                              banks2 == [st.banks EXCEPT ![abn] = abF, ![lbn] = lbF]
+                                              leeBal2 == r4.bal
+                                              k2 == FindSlot(leeBal2, lbn)
+                                              h1 == HealthComponents(banks2, leeBal2, "Maint")
+                                              post == BSub(h1[1], h1[2])
+                                              lorBal == SortBal(r3.bal)
+                                          IN IF BLt(leeBal2[k2].l, IONE) THEN Fail(a, "ExhaustedLiability")
+                                             ELSE IF ~BLt(leeBal2[k2].a, IONE) THEN Fail(a, "TooSeverePayoff")
+                                             ELSE IF BIsPos(post) THEN Fail(a, "TooSevereLiquidation")
+                                             ELSE IF BLe(post, pre) THEN Fail(a, "WorseHealthPostLiquidation")
+                                             ELSE LET hl == ImplInitHealth(banks2, lorBal) IN
+                                             IF hl # "ok" THEN Fail(a, hl)
+                                             ELSE LET st2 == [st EXCEPT !.banks = banks2, !.accts[lee].bal = leeBal2, !.accts[lor].bal = lorBal,
+                                                                !.tok = SetTok(SetTok(@, lbF.vault_liq, BSub(vault, feeT)), lbF.vault_ins, BAdd(TokOf(st, lbF.vault_ins), feeT))]
+                                                  IN Do(a, "ok", st2, Obs(st2, {abn, lbn}, {lor, lee}, {lbF.vault_liq, lbF.vault_ins}))
+
+Bankruptcy(an, bn, signer) ==
+  LET a == [op |-> "bankruptcy", acct |-> an, bank |-> bn, signer |-> signer]
+      b0 == st.banks[bn] ac == st.accts[an] g == st.groups[b0.group]
+      se == BankStateErr(b0, "Paused")
+  IN IF se # "ok" THEN Fail(a, se)
+     ELSE IF ~Bit(b0.flags, BANK_PERMISSIONLESS_BAD_DEBT) /\ signer \notin {g.admin, g.risk_admin} THEN Fail(a, "Unauthorized")
+     ELSE LET hq == HealthComponents(st.banks, ac.bal, "Equity") IN
+     IF ~BLt(hq[1], hq[2]) THEN Fail(a, "AccountNotBankrupt")
+     ELSE IF ~(BLt(hq[1], IC_BANKRUPT_THRESHOLD) /\ BGt(hq[2], IEPS)) THEN Fail(a, "AccountNotBankrupt")
+     ELSE LET b1 == ImplAccrue(b0, g, Now) IN
+     IF IsErr(b1) THEN Fail(a, b1.err)
+     ELSE LET i == FindSlot(ac.bal, bn) IN
+     IF i = 0 THEN Fail(a, "LendingAccountBalanceNotFound")
+     ELSE LET bad == LiabAmount(b1, ac.bal[i].l) IN
+     IF ~BGt(bad, IEPS) THEN Fail(a, "BalanceNotBadDebt")
+     ELSE LET insAmt == TokOf(st, b1.vault_ins)
+              cov == BMin(bad, FOfBig(insAmt))
+              soc == BMax(BSub(bad, cov), BZero)
+              covUp == FToInt(FCeil(cov))
+              T == FMul(b1.tas, b1.asv)
+              wipe == BLe(T, soc)
+              asv2 == IF wipe THEN BZero ELSE FDiv(BSub(T, soc), b1.tas)
+              kill == wipe \/ BIsZero(asv2)
+              b2 == [b1 EXCEPT !.asv = asv2]
+              r == ImplIncrease(b2, ac.bal, i, bad, "RepayOnly", Now)
+          IN IF IsErr(r) THEN Fail(a, r.err)
+             ELSE LET b3 == ImplUpdateCache(r.b, Now)
+                      b4 == IF kill THEN [b3 EXCEPT !.cfg.op_state = OP_KILLED] ELSE b3
+                      flags2 == IF Bit(ac.flags, ACC_DISABLED) THEN ac.flags ELSE <<ACC_DISABLED>> \o ac.flags
+                      post == [st EXCEPT !.banks[bn] = b4, !.accts[an].bal = r.bal, !.accts[an].flags = flags2,
+                                 !.tok = SetTok(SetTok(@, b4.vault_ins, BSub(insAmt, covUp)), b4.vault_liq, BAdd(TokOf(st, b4.vault_liq), covUp))]
+                  IN Do(a, "ok", post, Obs(post, {bn}, {an}, {b4.vault_liq, b4.vault_ins}))
+
+Init == /\ st = InitState /\ acc = C02AccNext(C02Acc0, InitState, [ev |-> "reset"], InitState)
+        /\ acc7 = C07Acc0 /\ sid = 0 /\ depth = 0 /\ TLCSet(1, 1)
 
 Next ==
   /\ depth < MaxDepth
@@ -205,10 +316,14 @@ Next ==
           \/ Withdraw(an, bn, amt, FALSE) \/ Repay(an, bn, amt, FALSE)
      \/ \E an \in Accts, bn \in BankNames : Withdraw(an, bn, 0, TRUE) \/ Repay(an, bn, 0, TRUE) \/ CloseBalance(an, bn)
      \/ \E bn \in BankNames : Accrue(bn) \/ CollectFees(bn)
+     \/ \E t \in LiqTriples, q \in Amounts : Liquidate(t[1], t[2], t[3], t[4], q)
+     \/ \E p \in Prices : SetPrice(p[1], p[2], p[3])
+     \/ \E c \in BkCases : Bankruptcy(c[1], c[2], c[3])
 
 Spec == Init /\ [][Next]_vars
 
 \* fingerprint only the modelled part of the state (not the edge ids)
 View == <<st.clock.ts, [b \in BankNames |-> ObsBank(st.banks[b])], [a \in DOMAIN st.accts |-> ObsAcct(st.accts[a])],
-          [t \in DOMAIN st.tok |-> st.tok[t].amount], depth>>
+          [t \in DOMAIN st.tok |-> st.tok[t].amount], [b \in BankNames |-> <<st.banks[b].cfg.fixed_price, st.banks[b].cfg.op_state>>],
+          [a \in DOMAIN st.accts |-> st.accts[a].flags], depth>>
 =============================================================================
